@@ -69,6 +69,10 @@ def make_scenario(rng, cls):
             ev.append(["teval", rng.randrange(npts)])
     if cls not in ("LinearOperator", "SmoothStronglyConvexQuadraticFunction", "BlockSmoothConvexFunction") and rng.random() < 0.3:
         ev.append(["comp_eval"])                           # sample arriving through a composite function, at a fresh point
+    if cls not in ("LinearOperator", "SmoothStronglyConvexQuadraticFunction", "BlockSmoothConvexFunction") and rng.random() < 0.3:
+        ev.append(["comp_stat", rng.choice([2.0, 0.5, 1.0])])   # stationary point declared on a single-leaf scaled composite
+    if cls == "NonexpansiveOperator" and rng.random() < 0.6:
+        sc["with_v"] = True                                # the documented option: infimal displacement vector
     for i, e in enumerate(ev):
         e.append("r%d" % i)
     sc["events"] = ev
@@ -122,6 +126,10 @@ def execute(sc, order):
             labels[id(e)] = "%s:e%d" % (role, k)
 
     label_new(n_before_decl, "decl")
+    if sc.get("with_v"):
+        b = snapshot()
+        f.v = Point()
+        label_new(b, "v")
     b = snapshot()
     pts = [pep.set_initial_point() for _ in range(sc["n_points"])]
     label_new(b, "init")
@@ -149,6 +157,9 @@ def execute(sc, order):
             f.fixed_point()
         elif e[0] == "prox":
             proximal_step(pts[e[1]], f, e[2])
+        elif e[0] == "comp_stat":
+            F = e[1] * f
+            F.stationary_point()
         elif e[0] == "comp_eval":
             other = pep.declare_function(ConvexFunction if CLASSES[cls][0] == "function" else MonotoneOperator)
             F = f + other
@@ -331,7 +342,7 @@ def run_shard(spec):
                     gap, st = implication_gap(c["expr"], c["sense"], pep_side, pep_lmis, idx)
                     if gap is None:
                         counters["implication_inconclusive"] = counters.get("implication_inconclusive", 0) + 1
-                    elif gap > 1e-6:
+                    elif gap > 1e-5:
                         V("documented_condition_not_imposed:%s:%s%s" % (cls, c["name"], ":diagonal" if len(c["pair"]) == 2 and c["pair"][0] == c["pair"][1] else ""),
                           "%s: the documented condition '%s' for sample pair %s is neither generated nor implied: a (Gram, F) "
                           "allowed by the generated constraints violates it by %.3g (order %s, %d samples)"
@@ -345,7 +356,7 @@ def run_shard(spec):
                     gap, st = implication_gap(E.of(tgt.expression), tgt.equality_or_inequality, ref_side, ref_lm, idx)
                     if gap is None:
                         counters["implication_inconclusive"] = counters.get("implication_inconclusive", 0) + 1
-                    elif gap > 1e-6:
+                    elif gap > 1e-5:
                         V("generated_condition_stronger_than_documented:%s" % cls,
                           "%s: a generated constraint (%s) is not implied by the documented conditions (gap %.3g)"
                           % (cls, tgt.get_name(), gap), sc, order, sd)
